@@ -72,6 +72,33 @@ class IdlGen:
         return "\n".join(out) + "\n"
 
 
+def systematic_idls():
+    """every wrapper chain of length 0..2 over {[], [string], ?} (no ?? - not in the grammar) around every kind of element type
+    (builtin, named struct, named enum, anonymous struct, anonymous enum, empty struct, string set), in every position
+    (method input, method output, typedef field, field of a nested anonymous struct): one definition per position"""
+    wrappers = ["[]", "[string]", "?"]
+    chains = [""] + wrappers + [a + b for a in wrappers for b in wrappers if not (a == "?" and b == "?")]
+    inners = ["int", "string", "object", "T", "E", "(p: int, q: ?string)", "(u, v, w)", "()", "[string]()"]
+    out = []
+    for pos in ("in", "out", "typedef", "nested"):
+        fields, k = [], 0
+        for c in chains:
+            for inner in inners:
+                fields.append("f%d: %s%s" % (k, c, inner))
+                k += 1
+        body = "(" + ", ".join(fields) + ")"
+        head = "interface org.example.sys%s\ntype T (a: int, b: []T, c: [string]T)\ntype E (one, two)\n" % pos
+        if pos == "in":
+            out.append(head + "method M%s -> ()\n" % body)
+        elif pos == "out":
+            out.append(head + "method M() -> %s\n" % body)
+        elif pos == "typedef":
+            out.append(head + "type Big %s\nmethod M(b: Big) -> (b: ?Big)\n" % body)
+        else:
+            out.append(head + "method M(outer: (inner: %s, z: int)) -> (outer: [](inner: %s))\n" % (body, body))
+    return out
+
+
 def strip_skip(defs):
     out = []
     for d in defs:
@@ -173,6 +200,7 @@ def c09(ck):
     texts = []
     for i in range(40 if quick else 300):
         texts.append(("clean", g.idl(i)))
+    texts += [("clean", t) for t in systematic_idls()]
     gk = IdlGen(rng, anon_in_errors=True)
     special = [
         ("known", "interface a.b\nmethod M(self: int) -> ()\n"), ("known", "interface a.b\ntype T (a: (Self, x))\nmethod M() -> ()\n"),
